@@ -32,7 +32,7 @@ from .. import c07lib as L
 from .. import imap_grammar as G
 
 HEADER = ('From PV Require Import Base.Prelude Base.Decimal Resp.Grammar Resp.Printer '
-          'Resp.Wf Resp.Check.\n')
+          'Resp.Wf Resp.Producer Resp.Check.\n')
 
 
 JOBS = []
@@ -41,6 +41,22 @@ JOBS = []
 def submit(ctx, name, typ, cases, checker, shard, describe) -> None:
     """queue a correspondence run; all of them are evaluated together at the
     end (the Coq evaluations are independent and run side by side)"""
+    if shard == 'size':
+        # pack by the size of the Gallina text: Coq's parser overflows its stack
+        # on a definition of several hundred kilobytes
+        groups, cur, size = [], [], 0
+        for i, c in enumerate(cases):
+            if cur and size + len(c) > 200000:
+                groups.append(cur)
+                cur, size = [], 0
+            cur.append(i)
+            size += len(c)
+        if cur:
+            groups.append(cur)
+        for g, idx in enumerate(groups):
+            JOBS.append((f'{name}_{g}', typ, [cases[i] for i in idx], checker, len(idx),
+                         (lambda idx: lambda i: describe(idx[i]))(idx)))
+        return
     JOBS.append((name, typ, cases, checker, shard, describe))
 
 
@@ -50,7 +66,7 @@ def flush_jobs(ctx) -> None:
     def one(job):
         name, typ, cases, checker, shard, describe = job
         return job, ctx.run_cases(name, HEADER, typ, cases, checker, shard=shard, jobs=4)
-    with ThreadPoolExecutor(max_workers=6) as ex:
+    with ThreadPoolExecutor(max_workers=8) as ex:
         for job, bad in ex.map(one, JOBS):
             for i in bad[:5]:
                 ctx.disagreement(job[0], job[5](i))
@@ -60,7 +76,7 @@ def flush_jobs(ctx) -> None:
 # ============================================================ (i) printer cases
 def section_print(ctx) -> None:
     rng = ctx.rng
-    n = ctx.scale(600, 3000)
+    n = ctx.scale(500, 3000)
     cases, keep = [], []
     hist = {}
     for _ in range(n):
@@ -92,7 +108,7 @@ def section_print(ctx) -> None:
         keep.append((r, a))
     ctx.sample({'print_case': repr(keep[-1][0])[:300], 'bytes': keep[-1][1][:200].decode('latin-1')})
     ctx.extra['print_case_kinds'] = hist
-    submit(ctx, 'print_resp', 'resp * bytes', cases, 'chk_print_wf', 300,
+    submit(ctx, 'print_resp', 'resp * bytes', cases, 'chk_print_wf', 250,
            lambda i: {'ast': repr(keep[i][0])[:1500], 'impl': keep[i][1][:600].decode('latin-1')})
 
 
@@ -134,6 +150,8 @@ def section_leaves(ctx) -> None:
     vals = [None, b'', '']
     for c in range(256):                       # every byte, short and at the length limit
         vals.append(b'a' + bytes([c]) + b'b')
+        vals.append(b'ab' + bytes([c]))
+        vals.append(bytes([c]) + b'ab')
         vals.append(b'x' * 31 + bytes([c]) + b'x' * 31)
     for n in range(0, 70):
         vals.append(b'y' * n)
@@ -154,7 +172,7 @@ def section_leaves(ctx) -> None:
         cases.append(T.pair(L.e_pyval(v), T.bytes_(out)))
         keep.append((v, out))
     kb = keep
-    submit(ctx, 'string_build', 'pyval * bytes', cases, 'chk_build', 1500,
+    submit(ctx, 'string_build', 'pyval * bytes', cases, 'chk_build', 1000,
            lambda i: {'value': repr(kb[i][0]), 'impl': repr(kb[i][1])})
     # mailbox names
     names = ['', 'INBOX', 'inbox', 'InBoX', 'ınbox', 'INBOXX', 'inbo', '&', '&-', 'a&b', 'é&', '&é']
@@ -170,7 +188,7 @@ def section_leaves(ctx) -> None:
         cases.append(T.pair(T.codepoints(nm), T.bytes_(out)))
         keep.append((nm, out))
     km = keep
-    submit(ctx, 'mailbox_bytes', 'list N * bytes', cases, 'chk_mailbox', 2000,
+    submit(ctx, 'mailbox_bytes', 'list N * bytes', cases, 'chk_mailbox', 800,
            lambda i: {'name': repr(km[i][0]), 'impl': repr(km[i][1])})
     # date-time
     cases, keep = [], []
@@ -204,6 +222,8 @@ class Recorder:
         self.by_conn = {}
         self.fetch_items = {}
         self.unconverted = []
+        self.producer = []        # (kind, Gallina term of the model call, bytes the command wrote)
+        self._pending = {}        # id(resp) -> (kind, term)
         self._installed = False
 
     def install(self) -> None:
@@ -246,8 +266,148 @@ class Recorder:
                     asts = None
                     rec.unconverted.append((type(resp).__name__, repr(exc)[:200]))
                 rec.by_conn.setdefault(id(conn), []).append((asts, data))
+                pend = rec._pending.pop(id(resp), None)
+                if pend is not None and data:
+                    rec.producer.append((pend[0], pend[1], data))
+                elif data and asts and asts[-1][0] == 'cond' and asts[-1][1] is not None \
+                        and asts[-1][4].endswith(b' completed.') and asts[-1][2] == 'OK':
+                    # "<COMMAND> completed." of any other command: the model is
+                    # given the command word of the command being answered
+                    from pymap.context import current_command
+                    try:
+                        cmd = current_command.get()
+                        code = asts[-1][3]
+                        cd = 'None' if code is None else L.e_code(code)
+                        rec.producer.append(('completed', '[completed %s %s %s]' % (
+                            T.bytes_(cmd.tag), T.bytes_(cmd.command), cd), data))
+                    except LookupError:
+                        pass
         FetchResponse.write = fetch_write
         IMAPConnection.write_response = write_response
+        self._install_producer_hooks(orig_wr)
+
+    def _install_producer_hooks(self, _orig) -> None:
+        """record the *inputs* of do_select / do_status / do_list /
+        check_command (what the session layer handed to them), keyed by the
+        response object they return; write_response pairs them with the bytes"""
+        from pymap.backend.session import BaseSession
+        from pymap.imap.state import ConnectionState
+        from pymap.parsing.commands import InvalidCommand
+        from pymap.parsing.command import CommandAuth, CommandNonAuth, CommandSelect
+        rec = self
+        o_select, o_get, o_list = (BaseSession.select_mailbox, BaseSession.get_mailbox,
+                                   BaseSession.list_mailboxes)
+
+        async def select_mailbox(self, *a, **kw):
+            ret = await o_select(self, *a, **kw)
+            self._c07_select = ret
+            return ret
+
+        async def get_mailbox(self, *a, **kw):
+            ret = await o_get(self, *a, **kw)
+            self._c07_get = ret
+            return ret
+
+        async def list_mailboxes(self, *a, **kw):
+            ret = await o_list(self, *a, **kw)
+            ret = (list(ret[0]), ret[1])
+            self._c07_list = ret
+            return ret
+        BaseSession.select_mailbox = select_mailbox
+        BaseSession.get_mailbox = get_mailbox
+        BaseSession.list_mailboxes = list_mailboxes
+        d_select, d_status, d_list, chk = (ConnectionState.do_select, ConnectionState.do_status,
+                                           ConnectionState.do_list, ConnectionState.check_command)
+
+        def snapshot_term(mailbox, recent, readonly):
+            mid = mailbox.mailbox_id.value
+            if not (len(mid) == 33 and mid[:1] == b'F'):
+                return None
+            v = mailbox.uid_validity
+            return ('(Build_snapshot %s %s %s %s %s %s %s %s %s)' % (
+                T.boolean(readonly), T.N(mailbox.exists), T.N(recent), T.N(mailbox.unseen),
+                'None' if mailbox.first_unseen is None else f'(Some {T.N(mailbox.first_unseen)})',
+                T.N(mailbox.next_uid - 1), T.N(v >> 16), T.N(v & 0xffff), T.N(int(mid[1:], 16))))
+
+        async def do_select(self, cmd):
+            ret = await d_select(self, cmd)
+            try:
+                mailbox, updates = self.session._c07_select
+                recent = mailbox.recent if updates.readonly else updates.session_flags.recent
+                sn = snapshot_term(mailbox, recent, updates.readonly)
+                if sn is not None:
+                    rec._pending[id(ret[0])] = ('select', f'(do_select {T.bytes_(cmd.tag)} {sn})')
+            except Exception as exc:
+                rec.unconverted.append(('producer-select', repr(exc)[:200]))
+            return ret
+
+        async def do_status(self, cmd):
+            ret = await d_status(self, cmd)
+            try:
+                mailbox, updates = self.session._c07_get
+                if updates and updates.mailbox_id == mailbox.mailbox_id:
+                    recent = updates.session_flags.recent
+                else:
+                    recent = mailbox.recent
+                sn = snapshot_term(mailbox, recent, False)
+                names = {b'MESSAGES': 'QMessages', b'RECENT': 'QRecent', b'UIDNEXT': 'QUidNext',
+                         b'UIDVALIDITY': 'QUidValidity', b'UNSEEN': 'QUnseen',
+                         b'MAILBOXID': 'QMailboxId'}
+                req = list(dict.fromkeys(bytes(a) for a in cmd.status_list))
+                if sn is not None:
+                    rec._pending[id(ret[0])] = ('status', '(do_status %s %s %s %s)' % (
+                        T.bytes_(cmd.tag), T.codepoints(cmd.mailbox),
+                        T.lst(names[a] for a in req), sn))
+            except Exception as exc:
+                rec.unconverted.append(('producer-status', repr(exc)[:200]))
+            return ret
+
+        async def do_list(self, cmd):
+            ret = await d_list(self, cmd)
+            try:
+                entries, _ = self.session._c07_list
+                lsub = T.boolean(cmd.only_subscribed)
+                if not cmd.filter:
+                    term = f'(do_list_root {T.bytes_(cmd.tag)} {lsub})'
+                elif all(sep == '/' for _, sep, _ in entries):
+                    term = '(do_list %s %s %s)' % (T.bytes_(cmd.tag), lsub, T.lst(
+                        T.pair(T.pair(T.codepoints(name), T.boolean(b'Noselect' not in attrs)),
+                               T.boolean(b'HasChildren' in attrs)) for name, _, attrs in entries))
+                else:
+                    term = None
+                if term is not None:
+                    rec._pending[id(ret[0])] = ('list', term)
+            except Exception as exc:
+                rec.unconverted.append(('producer-list', repr(exc)[:200]))
+            return ret
+
+        def check_command(self, cmd):
+            ret = chk(self, cmd)
+            if ret is not None:
+                try:
+                    if isinstance(cmd, InvalidCommand):
+                        name = cmd.command_name
+                        tag = 'None' if cmd.tag == b'*' else f'(Some {T.bytes_(cmd.tag)})'
+                        words = name.split(b' ') if name else []
+                        term = '[invalid_command %s %s %s]' % (
+                            tag, T.lst(T.bytes_(w) for w in words),
+                            T.boolean(cmd.command_type is not None))
+                    else:
+                        if self._session and isinstance(cmd, CommandNonAuth):
+                            kind = 'AlreadyAuth'
+                        elif not self._session and isinstance(cmd, CommandAuth):
+                            kind = 'MustAuth'
+                        else:
+                            kind = 'MustSelect'
+                        term = f'[refuse {T.bytes_(cmd.tag)} {T.bytes_(cmd.command)} {kind}]'
+                    rec._pending[id(ret)] = ('refusal', term)
+                except Exception as exc:
+                    rec.unconverted.append(('producer-check', repr(exc)[:200]))
+            return ret
+        ConnectionState.do_select = do_select
+        ConnectionState.do_status = do_status
+        ConnectionState.do_list = do_list
+        ConnectionState.check_command = check_command
 
     def take(self, conn):
         return self.by_conn.pop(id(conn), [])
@@ -535,6 +695,94 @@ def sweep_program(byte_values) -> list:
     return steps
 
 
+ALL_ATTRS = (b'(FLAGS UID INTERNALDATE RFC822.SIZE ENVELOPE BODYSTRUCTURE BODY EMAILID THREADID '
+             b'BODY[] BODY[HEADER] BODY[TEXT] BODY[1] BODY[1.MIME] BODY[HEADER.FIELDS (SUBJECT)] '
+             b'BODY[]<0.10> RFC822 RFC822.HEADER RFC822.TEXT BINARY[] BINARY[1] BINARY.SIZE[1])')
+CONTENT_ATTRS = [b'RFC822.SIZE', b'ENVELOPE', b'BODYSTRUCTURE', b'BODY', b'BODY[]', b'BODY[TEXT]',
+                 b'BODY.PEEK[HEADER.FIELDS (SUBJECT)]', b'RFC822', b'RFC822.HEADER', b'BINARY[]',
+                 b'BINARY.SIZE[]', b'(UID RFC822.SIZE BODY[HEADER.FIELDS (SUBJECT)])',
+                 b'(ENVELOPE BODYSTRUCTURE BODY[])', b'(FLAGS UID INTERNALDATE)', b'EMAILID']
+
+
+def gen_program2(rng) -> list:
+    """two sessions on one mailbox: between the main session's commands the
+    second one expunges, changes flags, appends, copies, or deletes / renames
+    the mailbox; the main session then fetches every attribute kind by
+    sequence number and by UID, stores, searches, polls"""
+    steps = []
+    n = [0]
+
+    def cmd(body: bytes, who='send') -> None:
+        n[0] += 1
+        steps.append((who, (b'a%d ' if who == 'send' else b'b%d ') % n[0] + body + b'\r\n'))
+
+    def append(box: bytes, who='send') -> None:
+        msg = gen_message(rng) if rng.random() < 0.5 else \
+            b'Subject: s%d\r\nFrom: a@b.c\r\n\r\nbody %d\r\n' % (n[0], n[0])
+        cmd(b'APPEND ' + box + b' {%d+}\r\n' % len(msg) + msg, who)
+    box = b'INBOX'
+    if rng.random() < 0.35:
+        box = rng.choice([b'box', b'a/b', b'"two words"'])
+        cmd(b'CREATE ' + box)
+    for _ in range(rng.randint(3, 6)):
+        append(box)
+    cmd(rng.choice([b'SELECT ', b'SELECT ', b'EXAMINE ']) + box)
+    if rng.random() < 0.5:
+        cmd(b'FETCH 1:* (UID FLAGS)')
+    cmd(b'SELECT ' + box, 'other')
+    gone = False
+    for _ in range(rng.randint(3, 8)):
+        r = rng.random()
+        k = b'%d' % rng.randint(1, 4)
+        expunged = False
+        if r < 0.45:
+            cmd(b'STORE ' + rng.choice([k, k, b'1:2', b'1:*']) + b' +FLAGS (\\Deleted)', 'other')
+            cmd(rng.choice([b'EXPUNGE', b'EXPUNGE', b'CLOSE']), 'other')
+            if steps[-1][1].endswith(b'CLOSE\r\n'):
+                cmd(b'SELECT ' + box, 'other')
+            expunged = True
+        elif r < 0.6:
+            cmd(b'STORE ' + k + rng.choice([b' +FLAGS (kw \\Seen)', b' FLAGS ()', b' -FLAGS (\\Seen)',
+                                           b' +FLAGS.SILENT (\\Flagged $x)']), 'other')
+        elif r < 0.72:
+            append(box, 'other')
+        elif r < 0.8:
+            cmd(rng.choice([b'COPY 1 ', b'MOVE 1 ', b'UID MOVE 1:200 ']) + rng.choice([box, b'Sent']),
+                'other')
+        elif r < 0.9 and box != b'INBOX' and not gone:
+            cmd(rng.choice([b'DELETE ' + box, b'RENAME ' + box + b' renamed']), 'other')
+            gone = True
+        else:
+            cmd(b'NOOP', 'other')
+        first = True
+        for _ in range(rng.randint(1, 3)):
+            q = rng.random()
+            seq = rng.choice([k, k, b'1', b'1:*', b'2:3', b'*'])
+            if (first and expunged and q < 0.7) or q < 0.3:
+                if rng.random() < 0.35:
+                    cmd(b'FETCH ' + k + b' ' + ALL_ATTRS)
+                else:
+                    cmd(b'FETCH ' + seq + b' ' + rng.choice(CONTENT_ATTRS))
+            elif q < 0.45:
+                cmd(b'UID FETCH 1:* ' + rng.choice(CONTENT_ATTRS))
+            elif q < 0.55:
+                cmd(rng.choice([b'STORE ', b'UID STORE ']) + seq + b' +FLAGS (\\Answered z)')
+            elif q < 0.65:
+                cmd(rng.choice([b'SEARCH ALL', b'UID SEARCH ALL', b'SEARCH DELETED', b'SEARCH 1:*']))
+            elif q < 0.8:
+                cmd(rng.choice([b'NOOP', b'CHECK', b'NOOP']))
+            elif q < 0.88:
+                cmd(rng.choice([b'COPY ', b'MOVE ']) + seq + b' Sent')
+            elif q < 0.94:
+                cmd(b'EXPUNGE')
+            else:
+                cmd(b'STATUS ' + box + b' (MESSAGES UNSEEN RECENT UIDNEXT)')
+            first = False
+    cmd(b'LOGOUT')
+    cmd(b'LOGOUT', 'other')
+    return steps
+
+
 def gen_preauth(rng) -> list:
     """steps on a fresh, unauthenticated connection"""
     good = base64.b64encode(b'\x00testuser\x00testpass')
@@ -623,12 +871,11 @@ def section_live(ctx) -> None:
     from ..pymap_env import DictEnv, MaildirEnv, run
     rng = ctx.rng
     RECORDER.install()
-    nprog = ctx.scale(26, 130)
+    nprog = ctx.scale(14, 110)
     nmd = ctx.scale(3, 12)
     stream_cases, stream_keep = [], []
     chunks = {}
-    stats = {'programs': 0, 'connections': 0, 'responses': 0, 'bytes': 0, 'escaped': 0,
-             'converted_streams': 0}
+    stats = {'programs': 0, 'connections': 0, 'responses': 0, 'bytes': 0, 'escaped': 0}
     kinds = {}
 
     async def one(kind, prog, pre):
@@ -647,11 +894,16 @@ def section_live(ctx) -> None:
         sweeps = [sweep[:27], sweep[27:]]
     else:
         sweeps = [list(range(k, k + 32)) for k in range(0, 256, 32)]
-    for p in range(nprog + nmd + len(sweeps)):
+    n2 = ctx.scale(10, 60)          # two-session programs, dict and maildir
+    for p in range(nprog + nmd + len(sweeps) + n2):
         kind = 'dict' if p < nprog else rng.choice(['++', 'fs'])
         pre = gen_preauth(rng) if kind == 'dict' and rng.random() < 0.25 else None
         prog = gen_program(rng)
-        if p >= nprog + nmd:
+        if p >= nprog + nmd + len(sweeps):
+            kind = 'dict' if (p - nprog - nmd - len(sweeps)) % 3 else rng.choice(['++', 'fs'])
+            pre, prog = None, gen_program2(rng)
+            stats['two_session'] = stats.get('two_session', 0) + 1
+        elif p >= nprog + nmd:
             kind, pre, prog = 'dict', None, sweep_program(sweeps[p - nprog - nmd])
         replay = {'backend': kind, 'preauth': [s.hex() for s in (pre or [])],
                   'program': [[w, d.hex()] for w, d in prog]}
@@ -681,20 +933,31 @@ def section_live(ctx) -> None:
                 ctx.failure('accounting', 'bytes on the wire that no response object wrote',
                             replay, {'kind': 'accounting'})
             # ---- model vs wire
-            asts = []
-            ok = True
+            # consecutive converted responses, cut into segments of bounded size
+            seg_asts, seg_bytes = [], b''
+
+            def close_segment():
+                nonlocal seg_asts, seg_bytes
+                if seg_asts:
+                    stats['converted_segments'] = stats.get('converted_segments', 0) + 1
+                    stream_cases.append(T.pair(T.lst(L.e_resp(x) for x in seg_asts),
+                                               T.bytes_(seg_bytes)))
+                    stream_keep.append(replay)
+                seg_asts, seg_bytes = [], b''
             for a, d in entries:
                 stats['responses'] += 1
-                if a is None:
-                    ok = False
-                else:
-                    asts.extend(a)
-                    for x in a:
-                        kinds[x[0]] = kinds.get(x[0], 0) + 1
-            if ok and entries:
-                stats['converted_streams'] += 1
-                stream_cases.append(T.pair(T.lst(L.e_resp(x) for x in asts), T.bytes_(out)))
-                stream_keep.append(replay)
+                if a is None or len(d) > 20000:
+                    key = 'unconverted' if a is None else 'oversize'
+                    stats[key] = stats.get(key, 0) + 1
+                    close_segment()
+                    continue
+                for x in a:
+                    kinds[x[0]] = kinds.get(x[0], 0) + 1
+                if len(seg_bytes) + len(d) > 12000:
+                    close_segment()
+                seg_asts.extend(a)
+                seg_bytes += d
+            close_segment()
             for ch in G.split_responses(out):
                 if len(ch) < 6000:
                     chunks.setdefault(ch, None)
@@ -705,15 +968,14 @@ def section_live(ctx) -> None:
     if stats['responses'] and len(RECORDER.unconverted) > 0.02 * stats['responses'] + 2:
         ctx.disagreement('convert', {'unconverted': RECORDER.unconverted[:5],
                                      'of': stats['responses']})
-    submit(ctx, 'live_stream', 'list resp * bytes', stream_cases, 'chk_stream',
-           max(4, (len(stream_cases) + 3) // 4),
+    submit(ctx, 'live_stream', 'list resp * bytes', stream_cases, 'chk_stream', 'size',
            lambda i: {'replay': json.dumps(stream_keep[i])[:3000]})
     # ---- (iii) the two recognisers agree
     wf_cases, wf_keep = [], []
     seen = set()
     items = list(chunks)
     rng.shuffle(items)
-    items = items[:ctx.scale(450, 2200)]
+    items = items[:ctx.scale(300, 2200)]
     for ch in items:
         for b in [ch] + [mutate(rng, ch) for _ in range(ctx.scale(2, 3))]:
             if b in seen:
@@ -729,7 +991,7 @@ def section_live(ctx) -> None:
             seen.add(b)
             wf_cases.append(T.pair(T.bytes_(b), T.boolean(G.wf_response(b))))
             wf_keep.append(b)
-    submit(ctx, 'grammar_py_vs_coq', 'bytes * bool', wf_cases, 'chk_wf', 500,
+    submit(ctx, 'grammar_py_vs_coq', 'bytes * bool', wf_cases, 'chk_wf', 450,
            lambda i: {'bytes': wf_keep[i][:400].hex(), 'python': G.wf_response(wf_keep[i])})
 
 
@@ -792,7 +1054,97 @@ CORNER = [b'', b'\r\n', b'* OK x\r\n', b'* OK x', b'* OK \r\n', b'* OK\r\n', b'*
           b'* OK caf\xc3\xa9\r\n', b'* OK a\x00b\r\n', b'* OK a\rb\r\n', b'* OK x\n', b'* OK x\r\r\n']
 
 
-SECTIONS = [section_print, section_leaves, section_live]
+def section_producer(ctx) -> None:
+    """Resp/Producer.v against the code that builds the responses: the
+    parsers and leaf functions on their own, and do_select / do_status /
+    do_list / check_command / "<COMMAND> completed." on the inputs recorded
+    during the live runs (section_live must have run)"""
+    import random as _random
+    import re
+    from pymap.parsing import Params, Parseable
+    from pymap.parsing.exceptions import NotParseable
+    from pymap.parsing.primitives import Atom
+    from pymap.parsing.specials import Tag, Flag, ObjectId
+    from pymap.listtree import ListEntry
+    from pymap.mailbox import MailboxSnapshot
+    import pymap.mailbox as pm
+    rng = ctx.rng
+    tagp, atomp = Tag._pattern, Parseable._atom_pattern
+    leaf, lkeep = [], []
+
+    def add(term, what):
+        leaf.append(term)
+        lkeep.append(what)
+    for c in range(256):
+        add('(LClass %s %s %s)' % (T.N(c), T.boolean(tagp.fullmatch(bytes([c])) is not None),
+                                   T.boolean(atomp.fullmatch(bytes([c])) is not None)), ('class', c))
+
+    def parse(cls, buf):
+        try:
+            v, rest = cls.parse(memoryview(buf), Params())
+        except NotParseable:
+            return 'None'
+        return f'(Some ({T.bytes_(bytes(v))}, {T.bytes_(bytes(rest))}))'
+    bufs = [b'', b' ', b'  a1 NOOP', b'\\Seen x', b'\\seEN)', b' \\', b'\\\\x', b'kw(', b'+', b'a]b c',
+            b'\\*', b'x[y z']
+    for c in range(256):
+        bufs.append(bytes([c]) + b'a' + bytes([c]) + b'Bc d')
+        bufs.append(b' \\' + bytes([c]) + b'eEn')
+    for _ in range(ctx.scale(150, 1500)):
+        bufs.append(bytes(rng.choice(b' \\aBz09]+[*(.-') if rng.random() < 0.8 else rng.randrange(256)
+                          for _ in range(rng.randint(0, 10))))
+    for ctor, cls in (('LTag', Tag), ('LAtom', Atom), ('LFlag', Flag)):
+        for b in bufs:
+            ctx.count((ctor, b), nontrivial=True)
+            add(f'({ctor} {T.bytes_(b)} {parse(cls, b)})', (ctor, b.hex()))
+    for e in (False, True):
+        for m in (None, False, True):
+            for ch in (False, True):
+                attrs = ListEntry('x', e, m, ch).attributes
+                add('(LAttrs %s %s %s %s)' % (T.boolean(e), 'None' if m is None else
+                                              f'(Some {T.boolean(m)})', T.boolean(ch),
+                                              T.lst(T.bytes_(a) for a in attrs)), ('attrs', e, m, ch))
+    import random as _r
+    for _ in range(40):
+        bits = rng.choice([0, 1, 15, 16, 2 ** 128 - 1, rng.getrandbits(128), rng.getrandbits(64)])
+        orig_bits = _r.getrandbits
+        try:
+            _r.getrandbits = lambda n, bits=bits: bits
+            got = ObjectId.random_mailbox_id().value
+        finally:
+            _r.getrandbits = orig_bits
+        add(f'(LOid {T.N(bits)} {T.bytes_(got)})', ('oid', bits))
+    for t in (0, 1, 65534, 65535, 65536, 131070, 1790000000, rng.randrange(2 ** 31)):
+        for r in (0, 1, 65535, rng.randrange(65536)):
+            o_time, o_rand = pm.time.time, pm.random.randint
+            try:
+                pm.time.time = lambda t=t: float(t)
+                pm.random.randint = lambda a, b, r=r: r
+                v = MailboxSnapshot.new_uid_validity()
+            finally:
+                pm.time.time, pm.random.randint = o_time, o_rand
+            add(f'(LValidity {T.N(t)} {T.N(r)} {T.N(v)})', ('validity', t, r, v))
+    submit(ctx, 'producer_leaves', 'leaf_case', leaf, 'chk_leaf', 1300,
+           lambda i: {'case': repr(lkeep[i])})
+    # the recorded commands of the live runs
+    prod = RECORDER.producer
+    kinds = {}
+    cs, keep = [], []
+    rng.shuffle(prod)
+    for kind, term, data in prod:
+        if kinds.get(kind, 0) >= ctx.scale(60, 400) or len(data) > 8000:
+            continue
+        kinds[kind] = kinds.get(kind, 0) + 1
+        ctx.count(('producer', kind, data), nontrivial=True)
+        cs.append(T.pair(term, T.bytes_(data)))
+        keep.append((kind, term[:300], data[:300]))
+    ctx.extra['producer_cases'] = kinds
+    submit(ctx, 'producer', 'list resp * bytes', cs, 'chk_frame', 'size',
+           lambda i: {'kind': keep[i][0], 'model': keep[i][1], 'wire': keep[i][2].decode('latin-1')})
+    RECORDER.producer = []
+
+
+SECTIONS = [section_print, section_leaves, section_live, section_producer]
 
 
 def run(ctx) -> None:
